@@ -1575,6 +1575,20 @@ def check_c12(tier, seed, log=print):
         gi, st = P.graph_inputs(caps[i], True)
         ri = [b for b in P.random_inputs(R, alld[i], 80) if P.is_valid_utf8(list(b))]
         inputs[i] = inputs[j] = sorted(set(gi) | set(ri))
+    # second sentence of the property: in byte mode a pattern written for text never matches bytes that are not well-formed UTF-8.
+    # The byte-mode twin of a definition accepted for str input has only such patterns, so on any bytes every Ok item it yields
+    # has to be valid UTF-8: text with a character cut short by the end, stray lead / continuation / impossible bytes inside
+    bad_inputs = {}
+    for (i, j) in pairs:
+        base = [b for b in inputs[i] if 0 < len(b) <= 24][:: max(1, len(inputs[i]) // 30)][:30]
+        bad = set()
+        for b in base:
+            for t in (b'\xc3', b'\xe2\x82', b'\xf0\x9f\x98'):
+                bad.add(b + t)
+            for x in (b'\xff', b'\x80', b'\xe2', b'\xc0\xaf'):
+                bad.add(b[:1] + x + b[1:])
+                bad.add(b[:len(b) // 2 + 1] + x + b[len(b) // 2 + 1:])
+        bad_inputs[j] = sorted(x for x in bad if not P.is_valid_utf8(list(x)))
     root = Z.write_zoo('zoo-modes-%s' % tier, alld, acc, nshards=8)
     builds = Z.build_all(root, ['tail'] if tier == 'quick' else ['tail', 'sm_safe'])
     evals = 0
@@ -1584,14 +1598,15 @@ def check_c12(tier, seed, log=print):
     lines = []
     for i in acc:
         lines += P.case_block(str(i), caps[i], alld[i])
-        for b in inputs[i]:
+        for b in inputs[i] + bad_inputs.get(i, []):
             lines.append('Q LEX n ' + P.hexs(b))
     lean = P.run_lean(lines, nproc=12)
+    invalid_checked = 0
     for cfgname, b in builds.items():
         if not b['ok']:
             run.violation('zoo-build', dict(config=cfgname, stderr=b['stderr'][-2000:]), no_input=True)
             continue
-        reqs = ['%d n %s' % (i, P.hexs(x)) for i in acc for x in inputs[i]]
+        reqs = ['%d n %s' % (i, P.hexs(x)) for i in acc for x in inputs[i] + bad_inputs.get(i, [])]
         outs = Z.run_zoo(b['bin'], reqs, nproc=6)
         st = {}
         for ln in outs:
@@ -1600,6 +1615,20 @@ def check_c12(tier, seed, log=print):
             mv = lean.get('%d LEX n %s' % (idx, hx))
             if not same_stream(v, mv):
                 tie_dis += 1
+        for j, bl in bad_inputs.items():
+            for x in bl:
+                v = st.get((j, P.hexs(x)))
+                if v is None:
+                    continue
+                invalid_checked += 1
+                items_ = parse_stream(v)
+                for t in items_[0]:
+                    if t[0] == 'ok' and not P.is_valid_utf8(list(x[t[2]:t[3]])):
+                        run.violation('invalid-utf8-matched', dict(definition=srcs[j], config=cfgname, input_hex=P.hexs(x), byte_mode=v, token='%s:%d-%d' % (t[1], t[2], t[3]),
+                                                                   token_bytes=P.hexs(x[t[2]:t[3]]),
+                                                                   what='a byte-mode lexer whose patterns are all written for text (the definition is accepted for str input) yields a token over bytes that are not well-formed UTF-8'),
+                                      key='invalid|%s|%s' % (srcs[j], P.hexs(x)))
+                        break
         for (i, j) in pairs:
             for x in inputs[i]:
                 hx = P.hexs(x)
@@ -1623,7 +1652,7 @@ def check_c12(tier, seed, log=print):
         run.violation('tie', dict(what='%d streams differ between compiled lexers and the interpreter model' % tie_dis), no_input=True)
     run.coverage.update(dict(obligations=au['obligations'], discharged=au['discharged'], theorems=au['names'], axioms=au['axioms'],
                              checker_cmd=au['checker_cmd'], kernel_recheck=au.get('kernel_recheck'), trusted_base=TRUSTED_BASE,
-                             evaluations=evals, distinct_nontrivial=len(nontriv), definition_pairs=len(pairs), identical_graphs=same_graph,
+                             evaluations=evals, distinct_nontrivial=len(nontriv), definition_pairs=len(pairs), identical_graphs=same_graph, byte_mode_runs_on_ill_formed_text=invalid_checked,
                              rule='every str-mode corpus definition is compiled a second time with utf8 = false; both lexers run on the same valid UTF-8 inputs (transition-directed + samples); Ok items with spans and the list of bytes covered by errors must coincide; '
                                   'captured graphs compared; root checked for continuation-byte edges; non-trivial = multi-byte input with an error item',
                              samples=samples, model_vs_impl_disagreements=tie_dis))
